@@ -59,7 +59,7 @@ def run(chk):
                        "none on the stack any more: since /repo 5cf0f14 the searches keep explicit frames; the deep family runs them on an "
                        "ordinary 2 MiB thread stack up to 40000 (thorough 300000) vertices and reports an aborted child process "
                        "(fixed defect D-SCC-STACK: the recursive version aborted from 8713 vertices on such a thread)"]
-    chk.proofs(extra_targets=["Model/SccRun.vo"])
+    chk.proofs(extra_targets=["Model/SccRun.vo"], extra_props=["Props/SccUnique.v"])
     binp = vf.build_harness("c18")
     thorough = chk.tier != "quick"
     n = 4000 if thorough else 350
